@@ -172,7 +172,14 @@ pub fn blob_len(mix: SizeMix) -> BoxedStrategy<usize> {
 
 pub fn blob(mix: SizeMix) -> impl Strategy<Value = Blob> {
     (blob_len(mix), any::<u16>(), prop_oneof![12 => Just(Fill::Rand), 2 => Just(Fill::Zero), 4 => Just(Fill::Text), 1 => Just(Fill::ZeroTail), 1 => Just(Fill::ZeroHead), 1 => Just(Fill::Lines), 1 => Just(Fill::RecordLike), 1 => Just(Fill::DigestLike), 1 => Just(Fill::Ones)])
-        .prop_map(|(len, salt, fill)| Blob { len, salt: salt as u64, fill })
+        .prop_map(|(len, salt, fill)| {
+            // now and then (1 in 64) a mined value: its digest under one algorithm starts with three zero bytes
+            if salt % 64 == 63 {
+                Blob::mined((salt / 64) as usize).0
+            } else {
+                Blob { len, salt: salt as u64, fill }
+            }
+        })
 }
 
 /// Distinct blobs.
